@@ -467,6 +467,7 @@ static RunOut run_case(int scen, int64_t k, bool from) {
     g_alloc.on_first_fail = on_first_fail;
     g_alloc.cur_op = 1;
     Sc s; s.plan_k = k; s.plan_from = from;
+    int fds0 = g_fs.open_fds, maps0 = g_fs.live_maps;
     SCENARIOS[scen].fn(s);
     int64_t attempts = s.armed ? g_alloc.attempts : 0;
     int64_t failed = g_alloc.failed;
@@ -481,6 +482,8 @@ static RunOut run_case(int scen, int64_t k, bool from) {
     for (auto& r : sim_alloc_live()) { auto& a = agg[sim_bt_chain(r.bt, 1, 3)]; a.first++; a.second += r.size; }
     for (auto& kv : agg) { J e = J::obj(); e.set("chain", kv.first); e.set("n", kv.second.first); e.set("bytes", kv.second.second); leaks.push(e); }
     res.set("leaks", leaks);
+    // nothing yara opened or mapped (include files, scanned files) may outlive the objects of the scenario
+    res.set("fd_leak", (int64_t) (g_fs.open_fds - fds0)); res.set("map_leak", (int64_t) (g_fs.live_maps - maps0));
     sim_alloc_forget_all();
     res.set("followup", followup());
     res.set("followup_live", (int64_t) sim_alloc_live_count());
@@ -536,6 +539,7 @@ static std::vector<Viol> judge(const RunOut& base, const RunOut& o) {
     const J& l = o.res["leaks"][i];
     v.push_back({"leak", "leak|fail@" + fc + "|leaked@" + l["chain"].str(), std::to_string(l["n"].num()) + " block(s), " + std::to_string(l["bytes"].num()) + " bytes still allocated after destroy+finalize"});
   }
+  if (o.res["fd_leak"].num() > 0 || o.res["map_leak"].num() > 0) v.push_back({"leak", "leak|fail@" + fc + "|descriptor-or-mapping", std::to_string(o.res["fd_leak"].num()) + " descriptor(s) and " + std::to_string(o.res["map_leak"].num()) + " mapping(s) opened by yara are still open after destroy+finalize"});
   if (!o.res["probe"].str().empty()) v.push_back({"unusable-after", "unusable|surviving-object|" + o.res["probe"].str().substr(0, o.res["probe"].str().find(':')) + "|fail@" + fc, "an object that survived the failed call no longer behaves like a fresh one: " + o.res["probe"].str()});
   if (o.res["followup"].str() != "ok") v.push_back({"unusable-after", "unusable|" + o.res["followup"].str() + "|fail@" + fc, "library not usable after the failure: " + o.res["followup"].str()});
   else if (o.res["followup_live"].num() != 0) v.push_back({"unusable-after", "unusable|followup-leak|fail@" + fc, "follow-up scenario leaked"});
